@@ -201,6 +201,10 @@ def gen_port(repo):
     m = T.Module(f"{repo}/src/nitypes/waveform/_digital/_port.py", "Gen.Port")
     m.translate_function("bit_mask", m.find_func(None, "bit_mask"), "bit_mask", [("n", "int")])
     m.translate_function("_get_port_dtype", m.find_func(None, "_get_port_dtype"), "_get_port_dtype", [("mask", "int")])
+    # T8: the `while mask != 0` loop that turns a mask into column indices
+    m.translate_function("_mask_to_column_indices", m.find_func(None, "_mask_to_column_indices"), "_mask_to_column_indices",
+                         [("mask", "int"), ("port_size", "int"), ("bitorder", "str")], protocol=False)
+    m.extra_dispatch = ['  | "Port._mask_to_column_indices", [m, w, big] => some (Py.render (_mask_to_column_indices m w (if big = 1 then "big" else "little")))']
     return m
 
 
